@@ -8,12 +8,12 @@
 // ===========================================================================================
 verus! {
 
-//@ item vm_api/src/builtin.rs Type attr="#[derive(PartialEq, Eq, Clone, Copy)]"
+//@ item vm_api/src/builtin.rs Type attr="#[derive(PartialEq, Eq, Structural, Clone, Copy)]"
 
 pub const METHOD_SEND: MethodNum = 0;
 pub const METHOD_CONSTRUCTOR: MethodNum = 1;
 
-#[derive(Clone, Copy, PartialEq, Eq)]
+#[derive(Clone, Copy, PartialEq, Eq, Structural)]
 pub struct SendFlags { pub bits: u64 }
 impl SendFlags {
     pub const READ_ONLY: SendFlags = SendFlags { bits: 1 };
@@ -22,7 +22,7 @@ impl SendFlags {
 }
 
 /// serialised parameters: an opaque, content-addressed token
-#[derive(Clone, Copy, PartialEq, Eq, Debug)]
+#[derive(Clone, Copy, PartialEq, Eq, Debug, Structural)]
 pub struct IpldBlock { pub h: u64 }
 pub uninterp spec fn cbor_hash<T>(v: T) -> u64;
 impl IpldBlock {
@@ -32,7 +32,7 @@ impl IpldBlock {
                 r.is_err() ==> r->Err_0.code == 21,
     { unimplemented!() }
 }
-#[derive(Clone, Copy, PartialEq, Eq, Debug)]
+#[derive(Clone, Copy, PartialEq, Eq, Debug, Structural)]
 pub struct RawBytes { pub h: u64 }
 
 pub struct Response { pub exit_code: ExitCode, pub return_data: Option<IpldBlock> }
